@@ -307,6 +307,42 @@ def order_probe(ctx, form=None):
     ctx.record(case, True)
 
 
+def norm_attr(v: str) -> str:
+    """XML attribute-value normalisation of a literal value (TAB, LF, CR -> space)."""
+    return v.replace("\r\n", " ").replace("\t", " ").replace("\n", " ").replace("\r", " ")
+
+
+def ws_listname_case(ctx, form=None):
+    """Directed family (F42): list names that differ only in the kind of a whitespace character.  The ids are
+    written raw into `<instance id=…>`; a reader normalises them, so the document can hold the same id twice."""
+    rng = ctx.rng
+    if form is None:
+        base = rng.choice(["a", "my list", "x"])
+        ws = rng.sample([" ", "\t", "\n"], 2)
+        names = [base + w + "b" for w in ws] if rng.random() < 0.8 else [base + " b", base + "_b"]
+        form = {"survey": [{"type": "text", "name": "q", "label": "Q"}],
+                "choices": [{"list_name": n, "name": "c%d" % i, "label": "L"} for i, n in enumerate(names)]}
+    case = {"form": form, "probe": "ws-listname"}
+    r = impl.run(form)
+    ctx.count("probe:ws-listname")
+    if r["ok"]:
+        ids = [i["id"] for i in c09obs.observe(r["xform"], None)["instances"]]
+        if len(set(ids)) != len(ids):
+            ctx.fail(Failure("instance-ids", f"instance ids are not unique in the document as read: {ids}", case,
+                             extra={"site": "survey._generate_static_instances"}))
+    ctx.record(case, True)
+
+
+def match_f42(f: Failure) -> bool:
+    """Duplicate ids in the document that come from two list names which differ as typed and coincide after
+    attribute-value normalisation (nothing else makes two static instances share an id)."""
+    if f.kind != "instance-ids":
+        return False
+    names = list(dict.fromkeys(r.get("list_name") for r in (f.case.get("form") or {}).get("choices", []) if r.get("list_name")))
+    normed = [norm_attr(n) for n in names]
+    return len(set(normed)) < len(names)
+
+
 def explore(ctx, factor, bs):
     rng = ctx.rng
     n = ctx.pick(2000, 40000) * factor
@@ -321,6 +357,8 @@ def explore(ctx, factor, bs):
         group_case(ctx)
     for i in range(ctx.pick(20, 100)):
         order_probe(ctx)
+    for i in range(ctx.pick(10, 50)):
+        ws_listname_case(ctx)
     ev = ctx.dist
     total = sum(v for k, v in ev.items() if k.startswith("impl:"))
     unsup = sum(v for k, v in ev.items() if k.startswith("impl:") and k.endswith("model:unsupported"))
@@ -345,7 +383,7 @@ def match_f41(f: Failure) -> bool:
     return any(isinstance(v, str) and any(ch in v for ch in SMART_CHARS) for r in rows for v in r.values())
 
 
-MATCHERS = {"F41-smart-quotes-in-choice-cells": match_f41}
+MATCHERS = {"F41-smart-quotes-in-choice-cells": match_f41, "F42-list-names-whitespace-ids": match_f42}
 
 
 def replay(ctx, payload, bs):
@@ -353,7 +391,9 @@ def replay(ctx, payload, bs):
     case = payload.get("case") or (payload.get("correspondence_mismatches") or [{}])[0].get("case")
     if not case:
         return bs.proof_ok and bs.tables_ok
-    if case.get("probe") == "set-order":
+    if case.get("probe") == "ws-listname":
+        ws_listname_case(ctx, case["form"])
+    elif case.get("probe") == "set-order":
         order_probe(ctx, case["form"])
     elif "form" in case:
         form_case(ctx, case["form"])
